@@ -183,6 +183,7 @@ def run_history(ctx, hist, model=True):
         plant = plants.Plant(hist["spec"])
     except Exception as e:
         ctx.count("rejected", core.error_class(e))
+        ctx.fail("predicate", "plant-refused-" + core.error_class(e), f"{type(e).__name__}: {e}", where)
         return False
     ok = False
     for k, inp in enumerate(hist["calcs"]):
